@@ -131,7 +131,7 @@ def _nontrivial(case, out):
 
 import props.c01 as _c01  # noqa: E402
 
-OPARGS = C.Kind("op-arguments", impl=H.run_case, model=H.model_line, judge=_judge, known=_known,
+OPARGS = C.Kind("op-arguments", impl=H.run_case, model=H.model_line, judge=_judge, known=_known, compare=H.same("class"),
                 classify=lambda c, o: f"{c['req']['op']}:{'accepted' if semantic(c)[1] else 'rejected' if semantic(c)[1] is False else 'outside'}",
                 nontrivial=_nontrivial, shrink=_c01._shrink)
 KINDS = {"op-arguments": OPARGS}
